@@ -83,6 +83,7 @@ def run_facts(cfg):
     pid = cfg["id"]
     src = os.path.join(VERIF, "harness", "factextract")
     mine = sorted(f for f in os.listdir(src) if f.lower().startswith("facts_%s" % pid.lower()) and f.endswith(".go"))
+    mine += [f for f in cfg.get("facts_extra", []) if f not in mine]   # extractors shared by several properties
     if not mine:
         return True, ""
     with Lock("facts_" + pid):
